@@ -269,6 +269,23 @@ func init() {
 				}
 			}
 		}
+		// the pruning limit is the earliest epoch still kept in memory (which only moves by the window in
+		// force at that epoch, C16e) — not a limit recomputed from the window in force now
+		if fp := c.Fn(esK + "FixateParams"); fp != nil {
+			sites := c.CallsByName(fp, false, esK+"PushFixatedParams")
+			if len(sites) != 1 {
+				c.Undecided("C16g: expected one PushFixatedParams call in FixateParams, found %d", len(sites))
+			}
+			for _, s := range sites {
+				a := ir.CallOf(s.Instr).Args
+				d := ir.Desc(a[len(a)-1])
+				if d == "call("+esK+"GetEarliestEpochStart)(recv,param#0)" && len(fp.Params) == 3 && a[2] == ssa.Value(fp.Params[2]) {
+					c.OK("C16g/FixateParams/prunes-below-the-earliest-kept-epoch", c.P.InstrPos(s.Instr), "PushFixatedParams(ctx, block, GetEarliestEpochStart(ctx))")
+				} else {
+					c.Fail("C16g/FixateParams/prunes-below-the-earliest-kept-epoch", c.P.InstrPos(s.Instr), "fixated versions are pruned below "+trunc(d, 100)+" instead of the earliest epoch start still kept: versions that blocks inside the kept window map through can be deleted")
+				}
+			}
+		}
 		c.RequireCallers("C16g", esK+"CleanAllOlderFixatedParams", esK+"FixateParams")
 		c.RequireCallers("C16g", esK+"CleanOlderFixatedParams", esK+"PushFixatedParams", esK+"CleanAllOlderFixatedParams")
 		c.NotCovered("the arithmetic over histories of changes (that grids of consecutive parameter versions meet at an epoch start); governance validation of new parameter values")
